@@ -41,6 +41,8 @@ func genRecords(r *Rand, format string, fileIndex int) string {
 		return GenLua(r, DocID(r, fileIndex, 0))
 	case "xml":
 		return GenXML(r, DocID(r, fileIndex, 0))
+	case "props":
+		return "id = " + DocID(r, fileIndex, 0) + "\nservers.0 = alpha\nservers.1 = beta\nname = " + Pick(r, wordPool) + "\n"
 	case "base64":
 		return base64.StdEncoding.EncodeToString([]byte(DocID(r, fileIndex, 0)+" "+strings.Repeat(Pick(r, wordPool)+" ", r.Range(2, 12)))) + "\n"
 	case "uri":
@@ -105,6 +107,9 @@ func breakRecords(r *Rand, format, text string) string {
 			lines[k] = "a = 1 2\n"
 		}
 		return strings.Join(lines, "")
+	case "props":
+		// one parent indexed by position and by name: no tree holds both
+		return text + Pick(r, []string{"servers.primary = gamma\n", "servers.x.y = 1\n", "servers.last = z\n"})
 	case "base64":
 		// a byte outside every base64 alphabet after at least one complete group, or a cut inside a group
 		t := strings.TrimRight(text, "\n")
@@ -186,6 +191,33 @@ func MalformedFor(format, text string) bool {
 				return true
 			}
 		}
+	case "props":
+		// structural rule, independent of yq: a key path that uses one parent both with numeric and with named children
+		kinds := map[string]string{}
+		leaf := map[string]bool{}
+		bad := false
+		for _, line := range strings.Split(text, "\n") {
+			kv := strings.SplitN(line, "=", 2)
+			if len(kv) != 2 {
+				continue
+			}
+			parts := strings.Split(strings.TrimSpace(kv[0]), ".")
+			for i := 1; i < len(parts); i++ {
+				parent := strings.Join(parts[:i], ".")
+				k := "name"
+				if _, err := strconv.Atoi(parts[i]); err == nil {
+					k = "index"
+				}
+				if prev, ok := kinds[parent]; ok && prev != k {
+					bad = true
+				}
+				kinds[parent] = k
+			}
+			leaf[strings.TrimSpace(kv[0])] = true
+		}
+		// (a scalar used as a parent, `name = x` with `name.0 = z`, is accepted by yq, which keeps the scalar and
+		// drops the other line without a word; that is a matter of the codec (C14), not judged here)
+		return bad
 	case "base64":
 		t := strings.TrimSpace(text)
 		_, e1 := base64.StdEncoding.DecodeString(t)
